@@ -605,3 +605,18 @@ pub fn run(ctx: &mut Ctx) {
     // (4) raw random text
     ctx.run_random(&Pipeline, prop::collection::vec(any::<u16>(), 0..900).prop_map(|t| raw_text(&t)), ctx.tier.pick(20_000, 400_000));
 }
+
+/// entry point of the libFuzzer `pipeline` target: the C01 oracle on one (text, inputs) pair
+pub fn fuzz_one(text: &str, inputs: &str) -> Outcome {
+    if text.len() > 4096 || bracket_depth(text) > 64 || resource_shape(text) {
+        return Ok(());
+    }
+    // unbounded recursion and huge allocations are resource questions, not crashes
+    if text.contains("range") && text.chars().filter(|c| c.is_ascii_digit()).count() > 12 {
+        return Ok(());
+    }
+    static KNOWN: std::sync::OnceLock<crate::engine::KnownFile> = std::sync::OnceLock::new();
+    let known = KNOWN.get_or_init(|| crate::engine::load_known("/verif/known_findings.json"));
+    let mut ctx = Ctx::new("C01", crate::engine::Tier::Quick, 1, 0, 1, 0, 1.0, crate::engine::Mode::Search, known, None, None);
+    run_pipeline(text, inputs, &mut ctx).map(|_| ())
+}
